@@ -36,7 +36,7 @@ TEXT = {
     },
     'C10': {
         'text': 'Partial: the forward transform and the array kernels around it. Verus proves on the extracted ntt_internal, for any field meeting the field-layer contract, every size 2^d within the root table and both twists, that the butterfly network computes the DFT: outp[i] == sum_m inp[m]*(s*w^i)^m mod p for every i (level-by-level loop invariants over a ghost snapshot + machine-checked split/congruence/root lemmas; root-table relations validated numerically each run; bitrev == d-bit reversal discharged by a complete Kani harness). Over that contract ntt_inv is the textbook inverse-transform formula, poly_interpret_eval the value of the inverse-transform polynomial, nth_root_powers the table of powers of the root, and a machine-checked theorem over the forward and inverse contracts (sum exchange + orthogonality of the roots) shows that the inverse transform undoes the forward one and that poly_interpret_eval returns the value of a polynomial of degree < n interpolating the given points at the powers of the root. Verus also proves, for any field and every size: poly_eval_monomial == value of the polynomial (Horner == sum a_i x^i), ntt_inv_finish == index reversal + scaling with frame, the in-place interleave of double_evaluations, fp::log2 == ceil(log2), bitrev index range, poly_deg / poly_mul_monomial == coefficient convolution == polynomial product, poly_range_check(a,b)(x) == prod (x-i); ntt_internal reports size and capacity violations as the specified errors, accepts exactly the power-of-two sizes within the root table, and all its indices are in range for every size (memory safety + frame).',
-        'note': 'double_evaluations is decided as two extracted fragments plus a theorem over them (split_at_mut glue assumed); poly_mul_lagrange and get_double_evaluations over that contract; poly_eval_lagrange_batched equals the division-free Lagrange form at every point, nodes included (that this form equals the interpolant value is a fact about the roots, not decided). NOT decided: extension to a power of two (DESIGN.md section 4 C10).',
+        'note': 'double_evaluations is decided as two extracted fragments plus a theorem over them (split_at_mut glue assumed); poly_mul_lagrange and get_double_evaluations over that contract; poly_eval_lagrange_batched equals the division-free Lagrange form at every point, nodes included, and a machine-checked product identity at the roots of unity (induction on the size, no division) shows that this form is the value of the interpolant. NOT decided: extension to a power of two (DESIGN.md section 4 C10).',
         'technique': 'function contracts with loop invariants, ghost snapshots and algebra lemmas on extracted real code over an abstract field (Verus); cross-engine contract for bitrev (Kani, complete)',
         'design_ref': 'DESIGN.md §4 C10',
     },
